@@ -65,8 +65,22 @@ def corruptions(rng, doc, fmt, n):
             i = rng.randrange(len(words))
             words.insert(i, words[i])
             new = text[:a] + '"' + ' '.join(words) + '"' + text[b:]
-        elif k < .88:
+        elif k < .84:
             new = text[:a] + '"//@nowhere.99"' + text[b:]                    # broken reference / wrong type
+        elif k < .93:
+            # a reference re-pointed to another object of the document (one end of a bidirectional pair then disagrees
+            # with the other end as written): the document stays well formed, the model it describes is not
+            reftoks = [m for m in toks if m.group(0).startswith('"') and m.group(0).strip('"').split()
+                       and all(w.startswith('/') for w in m.group(0).strip('"').split())]
+            pool = sorted({w for m in reftoks for w in m.group(0).strip('"').split()})
+            if len(pool) < 2:
+                continue
+            t = rng.choice(reftoks)
+            a, b = t.span()
+            words = t.group(0).strip('"').split()
+            i = rng.randrange(len(words))
+            words[i] = rng.choice([w for w in pool if w != words[i]])
+            new = text[:a] + '"' + ' '.join(words) + '"' + text[b:]
         else:
             c = rng.randrange(len(text))
             new = text[:c] + rng.choice('<>"{}[],:/') + text[c + 1:]        # a structural character
